@@ -245,7 +245,10 @@ example : (run init [.join 0 7, .join 1 7, .leave 1, .route 9, .route 7, .leave 
 
 /-- the model's atomicity assumption, read off the source on every run: in `sessionManager.join/leave/write` every use
 of the session table and the hand-over to the connection happen inside the closure that the single manager goroutine
-executes; and exactly one such goroutine exists (started once, by the constructor) -/
-theorem registry_operations_atomic_in_source : Gen.managerOpsInClosure = true ∧ Gen.managerStartedOnce = true := by decide
+executes; each of the three is ONE such closure (the test for an online key and the insertion are not two manager
+operations that another connection's join can come between); and exactly one such goroutine exists (started once, by
+the constructor) -/
+theorem registry_operations_atomic_in_source :
+    Gen.managerOpsInClosure = true ∧ Gen.managerOneOpPerCall = true ∧ Gen.managerStartedOnce = true := by decide
 
 end JT.C11
